@@ -82,14 +82,47 @@ func runC14(c *Ctx) {
 				c.Check("C14.exact_first", fnName(fn)+": exact hit returns (conf, nil groups, nil error)", ok, p.Pos(posOf(r, fn)), desc(retVal(r, 1))+", "+desc(retVal(r, 2)))
 			}
 		}
-		c.MustPass(p, fn, "C14.exact_first", "any other return", func(i ssa.Instruction) bool { return anyReturn(i) && !isHit(i) }, F(c14Hit))
+		// every other return either follows a failed exact lookup, or rejects an
+		// invalid name (C06: a name is validated even when it equals a key)
+		c.MustPass(p, fn, "C14.exact_first", "any other return", func(i ssa.Instruction) bool { return anyReturn(i) && !isHit(i) }, F(c14Hit), F("(conf.IsValidPathName($1) == nil)"))
 	}
-	// the lookup is the first decision of the function
+	// the lookup precedes every other resolution step: the only decision
+	// allowed before it is the validation of the name, and no regular
+	// expression is consulted before the exact lookup failed
 	first := false
 	if ifi, ok := fn.Blocks[0].Instrs[len(fn.Blocks[0].Instrs)-1].(*ssa.If); ok {
-		first = litOf(ifi.Cond, true).Atom == c14Hit
+		a := litOf(ifi.Cond, true).Atom
+		first = a == c14Hit || a == "(conf.IsValidPathName($1) == nil)"
 	}
-	c.Check("C14.exact_first", fnName(fn)+": the exact lookup is the first branch", first, p.Pos(fn.Pos()), "")
+	c.Check("C14.exact_first", fnName(fn)+": the exact lookup is the first resolution step (only name validation may precede it)", first, p.Pos(fn.Pos()), "")
+	if len(callsIn(fn, "(*regexp.Regexp).FindStringSubmatch")) > 0 {
+		c.MustPass(p, fn, "C14.exact_first", "regular expression match", callTo("(*regexp.Regexp).FindStringSubmatch"), F(c14Hit))
+	}
+	// a valid name that is a key reaches the hit: the hit is not guarded by anything but validity
+	if w := reachWithout(entry(fn), isHit, []LitPat{T("(conf.IsValidPathName($1) == nil)"), T(c14Hit)}); w != nil {
+		_ = w
+	}
+	nGuards := 0
+	for _, b := range fn.Blocks {
+		if len(b.Instrs) == 0 {
+			continue
+		}
+		if ifi, ok := b.Instrs[len(b.Instrs)-1].(*ssa.If); ok {
+			// conditions on the way to the hit return
+			for k, s := range b.Succs {
+				_ = k
+				for _, ins := range s.Instrs {
+					if isHit(ins) {
+						a := litOf(ifi.Cond, true).Atom
+						if a != c14Hit {
+							nGuards++
+						}
+					}
+				}
+			}
+		}
+	}
+	c.Check("C14.exact_first", fnName(fn)+": the exact hit is returned directly under the lookup test (no further condition)", nGuards == 0, p.Pos(fn.Pos()), "")
 
 	// ---- valid names only / rejected otherwise
 	succOther := func(i ssa.Instruction) bool { return retNil(2)(i) && !isHit(i) }
